@@ -54,9 +54,10 @@ template<class T> static void run(Rng& g, int n) {
 		  if (!(fabsl((LD)img.x - w2.x) <= 64 * tol && fabsl((LD)img.y - w2.y) <= 64 * tol && fabsl((LD)img.z - w2.z) <= 64 * tol)) fail("two_vectors" + ty, "value", "u->v", "v", "differs"); } }
 		// euler matrices
 		{ T a = (T)g.real(-7, 7), b = (T)g.real(-7, 7), c = (T)g.real(-7, 7); if (kind == 3) b = (T)(1.57079632679489661923L * (g.range(0, 1) ? 1 : -1) + g.real(-1e-6, 1e-6));
+		  if (it % 5 == 1) { static const double dl[] = {0, 1e-7, 1e-5, 2e-4, 1e-3, 3e-2}; b = (T)(1.57079632679489661923L * (LD)g.range(-2, 2) + (g.range(0, 1) ? 1 : -1) * dl[g.range(0, 5)]); }   // every multiple of pi/2 and its neighbourhood: gimbal lock of both families
 #define E3(SUF, A, B, C) E3_(eulerAngle##SUF, extractEulerAngle##SUF, A, B, C)
 #define E3_(NAME, XNAME, A, B, C) { count(#NAME + ty); if (!(mdiff4(glm::NAME(a, b, c), mul(mul(rot(A, a), rot(B, b)), rot(C, c))) <= tol * 4)) fail(#NAME + ty, "factorisation", str((double)a) + "," + str((double)b) + "," + str((double)c), "product of single-axis factors", "differs"); \
-		  T t1, t2, t3; glm::XNAME(glm::NAME(a, b, c), t1, t2, t3); LD cb = fabsl(A == C ? sinl((LD)b) : cosl((LD)b)); LD tt = 8192 * eps / std::max(cb, 64 * sqrtl(eps)) + ((kind == 3 || A == C) ? 64 * sqrtl(eps) : 0); if (!(mdiff4(glm::NAME(t1, t2, t3), mul(mul(rot(A, a), rot(B, b)), rot(C, c))) <= tt)) fail(#XNAME + ty, kind == 3 ? "gimbal" : "roundtrip", str((double)a) + "," + str((double)b) + "," + str((double)c), "angles rebuilding the same matrix", str((double)t1) + "," + str((double)t2) + "," + str((double)t3)); }
+		  T t1, t2, t3; glm::XNAME(glm::NAME(a, b, c), t1, t2, t3); LD cb = fabsl(A == C ? sinl((LD)b) : cosl((LD)b)); LD tt = 1024 * eps; (void)cb;   /* the rebuilt MATRIX is well conditioned even where the individual angles are not (gimbal lock) */ if (!(mdiff4(glm::NAME(t1, t2, t3), mul(mul(rot(A, a), rot(B, b)), rot(C, c))) <= tt)) fail(#XNAME + ty, kind == 3 ? "gimbal" : "roundtrip", str((double)a) + "," + str((double)b) + "," + str((double)c), "angles rebuilding the same matrix", str((double)t1) + "," + str((double)t2) + "," + str((double)t3)); }
 		  E3(XYZ, 0, 1, 2) E3(YXZ, 1, 0, 2) E3(XZX, 0, 2, 0) E3(XYX, 0, 1, 0) E3(YXY, 1, 0, 1) E3(YZY, 1, 2, 1) E3(ZYZ, 2, 1, 2) E3(ZXZ, 2, 0, 2)
 		  E3(XZY, 0, 2, 1) E3(YZX, 1, 2, 0) E3(ZYX, 2, 1, 0) E3(ZXY, 2, 0, 1)
 #define E2(NAME, A, B) { count(#NAME + ty); if (!(mdiff4(glm::NAME(a, b), mul(rot(A, a), rot(B, b))) <= tol * 4)) fail(#NAME + ty, "factorisation", str((double)a) + "," + str((double)b), "product", "differs"); }
